@@ -277,7 +277,8 @@ prop('C13', level='other', units=[DF + 'epoch_df', GF + 'compute_features_2d'], 
 
 OB = 'bycycle.objs.fit.'
 prop('C14', level='other',
-     units=[OB + 'Bycycle.fit', OB + 'BycycleBase.reduce_thresholds', OB + 'BycycleBase.__init__', CF, BGF],
+     units=[OB + 'Bycycle.fit', OB + 'BycycleBase.reduce_thresholds', OB + 'BycycleBase.__init__', CF, BGF,
+            OB + 'Bycycle.recompute_edges', OB + 'Bycycle.load'],
      jobs=['objects', 'group_2d', 'group_3d'],
      unit_jobs={BGF: ['group_2d', 'group_3d']},
      explanation='Proved: Bycycle.fit hands exactly the stored settings (the very same option objects, positionally in the right '
@@ -287,8 +288,10 @@ prop('C14', level='other',
                  'constructor expands every shorthand name, keeps full names and min_n_cycles, and installs the documented defaults '
                  '(three representative names in both spellings plus min_n_cycles: 2^7 presence patterns). Since fit reads nothing but the current settings and its arguments, "a fit yields what a '
                  'fresh object with the current settings yields" follows for every history. BycycleGroup.fit: models mirror df_features and sigs '
-                 'position by position for 2-D and 3-D input (proved at group level, see C11 / C12). Bounded: recompute_edges / load / '
-                 'attribute access (operation sequences, incl. refits with the same array object).')
+                 'position by position for 2-D and 3-D input (proved at group level, see C11 / C12). Bycycle.recompute_edges(r): the functional recompute_edges is called on the stored '
+                 'table with the dictionary that reduce_thresholds returns - every *_threshold lowered by r, min_n_cycles unchanged, key '
+                 'by key - and its result replaces the stored table; load stores the very objects it is given. Bounded: attribute '
+                 'access and whole operation sequences (incl. refits with the same array object), BycycleGroup.recompute_edges.')
 
 prop('C15', level='other',
      units=[CF, F + 'shape.compute_shape_features', F + 'shape.compute_durations', F + 'shape.compute_extrema_voltage',
